@@ -17,6 +17,7 @@ import (
 	"github.com/hujm2023/go-sms-protocol/logger"
 	"pgregory.net/rapid"
 
+	"verifharness/gen"
 	"verifharness/ref"
 	"verifharness/splitk"
 	"verifharness/vk"
@@ -25,6 +26,7 @@ import (
 var rec = vk.NewRecorder("C09")
 
 func TestMain(m *testing.M) {
+	vk.Disturb = gen.Disturb
 	logger.SetOutput(io.Discard)
 	code := m.Run()
 	rec.Flush("all")
